@@ -91,6 +91,69 @@ func scenC07(w *vsim.World, spec *vsim.Spec) {
 	for len(plan) < 12 && (len(plan) == 0 || w.Choose("more", 6) != 0) {
 		plan = append(plan, probe{kind: w.Choose("probe-kind", 7), pos: w.Choose("pos", 60), chr: w.Choose("chr", 16), adv: w.Choose("advance", 4)})
 	}
+	// concurrent signers and verifiers: the signing code is lock-free; with statement-level
+	// preemption (rule R9 in blob_signature.go) its unsynchronised sections interleave
+	extras := w.Choose("concurrent-clients", 3)
+	w.PreemptOn = extras > 0
+	extraDone := 0
+	for x := 1; x <= extras; x++ {
+		x := x
+		xtok := tokens[w.Choose("extra-token", len(tokens))]
+		xblock := mkBlock(3+x, 1+w.Choose("extra-size", 50))
+		rounds := 1 + w.Choose("extra-rounds", 4)
+		w.Spawn(fmt.Sprintf("client%d", x+1), func() {
+			defer func() { extraDone++ }()
+			xhash := md5hex(xblock)
+			for r := 0; r < rounds && !w.Failed(); r++ {
+				vsim.Yield("op", "extra")
+				t0 := time.Now()
+				put := node.do("PUT", "/"+xhash, xtok, xblock)
+				if put.code != 200 {
+					w.Violation("c07/put-failed", "PUT with signing enabled: %d %s", put.code, put.body)
+					return
+				}
+				signed := strings.TrimSpace(string(put.body))
+				var m []string
+				for _, p := range strings.Split(signed, "+")[1:] {
+					if mm := refSigHint.FindStringSubmatch(p); mm != nil {
+						m = mm
+					}
+				}
+				if m == nil {
+					w.Violation("c07/put-locator-unsigned", "PUT returned %q without a well-formed +A hint", signed)
+					return
+				}
+				if want := refSignature(key, xhash, xtok, m[2], ttl); m[1] != want {
+					w.Violation("c07/signature-differs-from-api-server", "keepstore signed %s (token %q, while other requests were being signed or verified) as %s; the API server's algorithm gives %s", xhash, xtok, m[1], want)
+					return
+				}
+				w.Probe("signed-while-others-sign-or-verify")
+				resp := node.do("GET", "/"+signed, xtok, nil)
+				verdict := refVerify(key, signed, xtok, ttl, t0)
+				if refVerify(key, signed, xtok, ttl, time.Now()) != verdict {
+					verdict = "unsure"
+				}
+				switch verdict {
+				case "ok":
+					if resp.code != 200 || !bytes.Equal(resp.body, xblock) {
+						w.Violation("c07/valid-signature-refused", "GET %s with its token before expiry (while other requests were being signed or verified): %d %q", signed, resp.code, trimb(resp.body))
+						return
+					}
+					w.Probe("verified-ok")
+				case "invalid":
+					w.Violation("c07/signature-differs-from-api-server", "the reference verifier rejects the locator %s keepstore has just issued for token %q", signed, xtok)
+					return
+				}
+				// the library entry points, directly
+				expT := time.Now().Add(ttl)
+				got := arvados.SignLocator(xhash+"+7", xtok, expT, ttl, []byte(key))
+				if want := fmt.Sprintf("%s+7+A%s@%08x", xhash, refSignature(key, xhash, xtok, fmt.Sprintf("%08x", expT.Unix()), ttl), expT.Unix()); got != want {
+					w.Violation("c07/signlocator-differs-from-reference", "SignLocator(token %q) = %s, reference %s (other goroutines were signing or verifying)", xtok, got, want)
+					return
+				}
+			}
+		})
+	}
 	done := false
 	w.Spawn("client", func() {
 		put := node.do("PUT", "/"+hash, token, block)
@@ -249,7 +312,7 @@ func scenC07(w *vsim.World, spec *vsim.Spec) {
 	if w.Failed() || w.Truncated() {
 		return
 	}
-	if !done {
+	if !done || extraDone != extras {
 		w.Violation("c07/client-stuck", "%s", strings.Join(w.Blocked(), "; "))
 		return
 	}
